@@ -194,7 +194,8 @@ func genWorld(c *fw.Ctx, g *gen, proto string) *world {
 type chk struct {
 	c     *fw.Ctx
 	st    *stack
-	kind  string      // "srv" or "wire"
+	kind  string      // "srv", "wire" or "overlap"
+	mute  bool        // overlap: the request on the wire was already shown not to be the caller's
 	cs    interface{} // the literal case (world or wire case) for witnesses
 	proto string
 }
@@ -217,8 +218,15 @@ func clip(s string) string {
 }
 
 func (k *chk) report(group, dir, field, trans, op string, want, wire, got interface{}) {
+	if k.mute {
+		return
+	}
 	key := fmt.Sprintf("%s %s | %s | %s | %s", k.proto, group, dir, field, trans)
 	what := fmt.Sprintf("%s %s: %s: %s %s", k.proto, op, dir, field, trans)
+	if k.kind == "overlap" {
+		key = "overlapping calls on one client: " + key
+		what = "while other calls on the same client were pending: " + what
+	}
 	if cs, ok := k.cs.(*wireCase); ok && cs.backslashTag() {
 		// One decoder (internal.ETag.UnmarshalText) serves every protocol and
 		// call: whatever it does to a backslash is one defect, one key.
